@@ -164,6 +164,28 @@ Theorem C01_conn_all_answered :
   length (fst (serve_conn ipp rs date p (concat (map (fun cs => map Some cs) css) ++ []))) = length reqs.
 Proof. exact conn_all_answered. Qed.
 
+(* Headline form: output element i answers request i and is the serialisation of a response with the request's HTTP
+   version, the clock's Date, a Server and a Connection header, the matched route's configured CORS values, and a body
+   exactly as long as its Content-Length (or the body-less 204 of OPTIONS). *)
+Theorem C01_conn_responses_in_order :
+  forall (ipp : bytes -> option bytes) (rs : list croute) (date : bytes) (p : peer)
+         (css : list chunks) (reqs : list request),
+  Forall2 (fun cs req => wf_chunks cs /\ parse_request_flat ipp p (concat cs) = Ok (req, [])) css reqs ->
+  Forall (fun req => is_upgrade req = false /\ respond rs date req <> None /\ keep_alive_of req = true) reqs ->
+  Forall2 (fun req o => exists resp, respond rs date req = Some resp /\ o = serialize_response resp /\
+     let c := match find_route rs (r_uri req) with Some r => cr_cors r | None => cors_none end in
+     s_version resp = r_version req /\
+     hget (HKnown H_Date) (s_headers resp) = Some date /\
+     (exists s, hget (HKnown H_Server) (s_headers resp) = Some s) /\
+     (exists k, hget (HKnown H_Connection) (s_headers resp) = Some k) /\
+     (hget (HKnown H_ContentLength) (s_headers resp) = Some (dec_render (N.of_nat (length (s_body resp))))
+      \/ (s_status resp = status_index 204 /\ s_body resp = [])) /\
+     (forall v, c_origin c = Some v -> hget (HKnown H_AccessControlAllowOrigin) (s_headers resp) = Some v) /\
+     (forall v, c_methods c = Some v -> hget (HKnown H_AccessControlAllowMethods) (s_headers resp) = Some v) /\
+     (forall v, c_headers c = Some v -> hget (HKnown H_AccessControlAllowHeaders) (s_headers resp) = Some v))
+    reqs (fst (serve_conn ipp rs date p (concat (map (fun cs => map Some cs) css) ++ []))).
+Proof. exact conn_responses_in_order. Qed.
+
 (* The first request after which the connection does not stay open (not keep-alive / panicking handler / upgrade) ends
    it: responses to everything before it, its own response unless it panics or is an upgrade, nothing after; the ending
    says why. *)
@@ -305,6 +327,7 @@ Example C01_example_options_panic_400_408 :
    | None => False end) /\
   serve_conn ipv4_parse ex_routes [68] ex_peer [Some ex_get_ka; Some ex_get_panic; Some ex_get_ka] =
     (response_of ex_routes [68] (ex_req ex_get_ka), EPanic) /\
+  parse_request_chunked ipv4_parse ex_peer [ex_bad] = Err E_Request /\
   serve_conn ipv4_parse ex_routes [68] ex_peer [Some ex_get_ka; Some ex_bad] =
     (response_of ex_routes [68] (ex_req ex_get_ka) ++ [frame_400 [68]], EBadRequest) /\
   serve_conn ipv4_parse ex_routes [68] ex_peer [Some ex_get_ka; None; Some ex_get_ka] =
@@ -325,6 +348,7 @@ Print Assumptions C01_serve_conn_terminates.
 Print Assumptions C01_parse_request_chunked_exact.
 Print Assumptions C01_conn_one_response_per_request.
 Print Assumptions C01_conn_all_answered.
+Print Assumptions C01_conn_responses_in_order.
 Print Assumptions C01_conn_stops_at_first.
 Print Assumptions C01_conn_stays_open_iff.
 Print Assumptions C01_conn_segmentation_independent.
